@@ -9,6 +9,7 @@
 //                                  sequence and every identifier the lexer passed to is_type() -- the observable token stream
 //   query <hexmodelxml> <hexquery> parse model, then parseProperty-style query through ExprGrabber -> sexp + diagnostics
 #include "common.hpp"
+#include "utap/statement.h"
 
 #include <algorithm>
 #include <set>
@@ -38,6 +39,36 @@ static std::vector<std::string> split(const std::string& s, char sep = ' ')
     return o;
 }
 
+// ---- statements ------------------------------------------------------------------------------------------------------
+struct StmtSink
+{
+    std::vector<std::string> lines;
+    std::vector<expression_t> exprs;
+    void e(const char* tag, const expression_t& x)
+    {
+        lines.push_back(std::string(tag) + "=" + vh::sexp(x));
+        exprs.push_back(x);
+    }
+    void stmt(Statement* s)
+    {
+        if (!s) return;
+        if (auto* p = dynamic_cast<ExprStatement*>(s)) e("expr", p->expr);
+        else if (auto* p = dynamic_cast<AssertStatement*>(s)) e("assert", p->expr);
+        else if (auto* p = dynamic_cast<ForStatement*>(s)) { e("for.init", p->init); e("for.cond", p->cond); e("for.step", p->step); lines.push_back("{"); stmt(p->stat.get()); lines.push_back("}"); }
+        else if (auto* p = dynamic_cast<IterationStatement*>(s)) { lines.push_back("iter " + p->symbol.get_name() + ":" + vh::tsexp(p->symbol.get_type()) + " {"); stmt(p->stat.get()); lines.push_back("}"); }
+        else if (auto* p = dynamic_cast<WhileStatement*>(s)) { e("while", p->cond); lines.push_back("{"); stmt(p->stat.get()); lines.push_back("}"); }
+        else if (auto* p = dynamic_cast<DoWhileStatement*>(s)) { lines.push_back("do {"); stmt(p->stat.get()); lines.push_back("}"); e("dowhile", p->cond); }
+        else if (auto* p = dynamic_cast<IfStatement*>(s)) { e("if", p->cond); lines.push_back("{"); stmt(p->trueCase.get()); lines.push_back("} else {"); stmt(p->falseCase.get()); lines.push_back("}"); }
+        else if (auto* p = dynamic_cast<ReturnStatement*>(s)) e("return", p->value);
+        else if (auto* p = dynamic_cast<BlockStatement*>(s)) {
+            lines.push_back("block{");
+            for (auto& v : p->variables) { lines.push_back("var " + v.uid.get_name() + ":" + vh::tsexp(v.uid.get_type())); e("init", v.init); }
+            for (auto it = p->begin(); it != p->end(); ++it) stmt(it->get());
+            lines.push_back("}");
+        } else lines.push_back("stmt?");
+    }
+};
+
 static void report(std::ostream& os, Document& doc, int rc)
 {
     os << "RC " << rc << "\n";
@@ -48,6 +79,19 @@ static void report(std::ostream& os, Document& doc, int rc)
        << "\n";
     std::ostringstream d;
     vh::dumpDocument(d, doc, true);
+    // function bodies (vh::dumpDocument lists only name and type): every expression of every statement as an S-expression
+    auto funs = [&](declarations_t& ds, const std::string& owner) {
+        for (auto& f : ds.functions) {
+            d << "funbody " << owner << "." << f.uid.get_name() << " locals=" << f.variables.size();
+            StmtSink ss;
+            for (auto& v : f.variables) d << " local " << v.uid.get_name() << ":" << vh::tsexp(v.uid.get_type()) << "=" << vh::sexp(v.init);
+            if (f.body) ss.stmt(f.body.get());
+            for (auto& l : ss.lines) d << " " << l;
+            d << "\n";
+        }
+    };
+    funs(doc.get_globals(), "");
+    for (auto& t : doc.get_templates()) funs(t, t.uid.get_name());
     std::istringstream is(d.str());
     std::string l;
     while (std::getline(is, l)) os << "X " << l << "\n";
@@ -88,6 +132,15 @@ struct SpanSink
         for (auto& v : d.variables) {
             expr(v.init);
             type(v.uid.get_type());
+        }
+        for (auto& f : d.functions) {
+            StmtSink ss;
+            for (auto& v : f.variables) {
+                expr(v.init);
+                type(v.uid.get_type());
+            }
+            if (f.body) ss.stmt(f.body.get());
+            for (auto& x : ss.exprs) expr(x);
         }
     }
     void doc(Document& d)
